@@ -1,4 +1,5 @@
 import Originium.Model.LSM
+import Originium.Model.LSMTie
 /-! # C10 — table lookup finds the newest version at or below the read timestamp
 
 For any set of versioned entries stored in any number of tables with any data-block size, looking
@@ -49,7 +50,31 @@ example :
   · simp only [List.map_cons, List.map_nil, buildTable_entries]
     unfold Consistent; decide
 
+
+/-! ### The Go code itself: `levelManager.searchLowerBound`, translated from `/repo/level.go` on every run -/
+
+/-- the translated `searchLowerBound` — with `Index.LowerBound` / `Data.LowerBound` of the table model for its two
+    per-table lookups — returns, for tables of any levels built with any block sizes and any bloom filter without
+    false negatives, the newest version `≤ r` of `k` that any table holds, and `none` exactly when none holds one -/
+theorem C10_code_lookup_newest (mayContain : TableM → Bytes → Bool)
+    (hbloom : ∀ t e, e ∈ t.entries → mayContain t e.key.user = true)
+    (levels : List (List TableM)) (hb : ∀ t ∈ levels.flatten, Built t) (k : Bytes) (r : Nat) :
+    IsNewest (levels.flatten.map (·.entries)).flatten k r
+      (GenLSM.searchLowerBound mayContain LSMTie.idxLB LSMTie.fetchLB levels ⟨k, r⟩) := by
+  rw [LSMTie.search_tie]
+  exact search_newest mayContain hbloom levels.flatten hb k r
+
+/-- what the translated loops compute, for any lookup functions: a fold over every table of every level in which the
+    bloom filter can only skip a table and a candidate replaces the current one only if it is newer -/
+theorem C10_code_search_fold {T : Type} (mayContain : T → Bytes → Bool) (idxLB : T → VK → Option Nat)
+    (fetchLB : T → Nat → VK → Option E) (levels : List (List T)) (key : VK) :
+    GenLSM.searchLowerBound mayContain idxLB fetchLB levels key =
+      LSMTie.toOpt (levels.flatten.foldl (fun a th => LSMTie.upd mayContain idxLB fetchLB key th a) (LSMTie.dflt, false)) :=
+  LSMTie.searchLowerBound_eq mayContain idxLB fetchLB levels key
+
 #print axioms C10_table
 #print axioms C10_lookup_newest
 #print axioms C10_lookup_unique
+#print axioms C10_code_lookup_newest
+#print axioms C10_code_search_fold
 end Props
